@@ -62,6 +62,20 @@ SIM_CONF = {"consts": {"Node": "{n1, n2, n3, n4}", "InitVoters": "{n1, n2, n3}",
 SIM_CONF_T = dict(SIM_CONF, num=1500, depth=90)
 
 
+XFER_INV = ["Inv_C16", "Inv_C01", "Inv_C02", "Inv_C05", "Inv_C15"]
+XFER_Q1 = {"name": "transfer-2n-targets", "consts": {"Node": "{n1, n2}", "InitVoters": "{n1, n2}", "MaxTerm": 3, "MaxLog": 3, "MaxInflight": 1, "MaxElections": 1, "MaxCmds": 0,
+                                                    "MaxXfers": 1, "MaxXferTries": 2, "XferTargets": "{None, n1, n2}"},
+           "invariants": XFER_INV, "timeout": 900}
+XFER_Q2 = {"name": "transfer-2n-cmd", "consts": {"Node": "{n1, n2}", "InitVoters": "{n1, n2}", "MaxTerm": 4, "MaxLog": 4, "MaxInflight": 1, "MaxElections": 2, "MaxCmds": 1,
+                                                "MaxXfers": 1, "MaxXferTries": 2, "XferTargets": "{None}"},
+           "invariants": XFER_INV, "timeout": 900}
+XFER_T = {"name": "transfer-3n", "consts": {"MaxTerm": 3, "MaxLog": 3, "MaxInflight": 1, "MaxElections": 1, "MaxCmds": 0, "MaxXfers": 1, "MaxXferTries": 1, "XferTargets": "{None}"},
+          "invariants": XFER_INV, "timeout": 2400, "may_timeout": True}
+SIM_XFER = {"consts": {"MaxTerm": 12, "MaxLog": 12, "MaxCmds": 4, "MaxCrash": 1, "MaxInflight": 2, "MaxElections": 10, "Orphans": "TRUE", "Reduce": "FALSE",
+                       "MaxXfers": 3, "MaxXferTries": 6, "XferTargets": "{None, n1, n2, n3}"},
+            "num": 100, "depth": 70}
+SIM_XFER_T = dict(SIM_XFER, num=1500, depth=90)
+
 E3 = {"ldr": True, "poll": True, "fsm": True}
 FUZZ = {
     "core": {"nodes": [1, 2, 3], "voters": [1, 2, 3], "nonvoters": [], "eager": E3, "steps": 120, "crash": 0.3, "fail": 0.4, "reconfig": 0, "snapshot": 0, "maxCmds": 8},
@@ -70,13 +84,15 @@ FUZZ = {
     "fair": {"nodes": [1, 2, 3], "voters": [1, 2, 3], "nonvoters": [], "eager": E3, "steps": 90, "crash": 0.3, "fail": 0.5, "reconfig": 0, "snapshot": 0.5, "maxCmds": 10, "fair": True},
     "fairconf": {"nodes": [1, 2, 3, 4], "voters": [1, 2, 3], "nonvoters": [], "eager": E3, "steps": 120, "crash": 0.2, "fail": 0.4, "reconfig": 0.6, "snapshot": 0.3, "maxCmds": 8, "fair": True},
     "crashpt": {"nodes": [1, 2, 3], "voters": [1, 2, 3], "nonvoters": [], "eager": E3, "steps": 220, "crash": 0.1, "fail": 0.3, "reconfig": 0, "snapshot": 0.8, "maxCmds": 14, "crashPts": 1.2},
+    "xfer": {"nodes": [1, 2, 3], "voters": [1, 2, 3], "nonvoters": [], "eager": E3, "steps": 160, "crash": 0.15, "fail": 0.3, "reconfig": 0, "snapshot": 0, "maxCmds": 10, "transfer": 1.0},
+    "xferconf": {"nodes": [1, 2, 3, 4], "voters": [1, 2, 3], "nonvoters": [], "eager": E3, "steps": 200, "crash": 0.1, "fail": 0.3, "reconfig": 0.6, "snapshot": 0.3, "maxCmds": 10, "transfer": 0.8, "fair": True},
     "all": {"nodes": [1, 2, 3, 4], "voters": [1, 2, 3], "nonvoters": [], "eager": E3, "steps": 220, "crash": 0.2, "fail": 0.3, "reconfig": 0.5, "snapshot": 0.8, "maxCmds": 12},
 }
 
 
 def plan(preds, mcq, mct, attacks, sim=("core",), level="model_checking", assumptions=(), fuzz=None, runs=(40, 600)):
     fuzz = fuzz if fuzz is not None else sim
-    sims = {"core": (SIM_CORE, SIM_CORE_T), "conf": (SIM_CONF, SIM_CONF_T), "snap": (SIM_SNAP, SIM_SNAP_T)}
+    sims = {"core": (SIM_CORE, SIM_CORE_T), "conf": (SIM_CONF, SIM_CONF_T), "snap": (SIM_SNAP, SIM_SNAP_T), "xfer": (SIM_XFER, SIM_XFER_T)}
     return {"level": level, "preds": preds, "mc": {"quick": mcq, "thorough": mcq + mct},
             "sims": {"quick": [sims[k][0] for k in sim], "thorough": [sims[k][1] for k in sim]},
             "fuzz": {"quick": [dict(FUZZ[k], runs=runs[0]) for k in fuzz], "thorough": [dict(FUZZ[k], runs=runs[1]) for k in fuzz]},
@@ -107,6 +123,10 @@ PLANS = {
     # C15: no self-inflicted death, every task completes, shutdown completes pending tasks
     "C15": plan(["C15_NoSelfInflictedDeath", "C15_AllTasksComplete"], [SNAP_Q], [SNAP_T, CONF_T], ["FixD5", "FixD11"], sim=("snap",),
                 fuzz=("all", "snap", "fairconf"), runs=(40, 600)),
+    # C16: leadership transfer (task, target choice, timeout-now RPC, timers); fair continuation after transfers (xferconf)
+    "C16": plan(["C16_SuccessMeansSteppedDown", "C16_TargetEligible", "C16_NoNewEntriesDuringTransfer", "C01_ElectionSafety", "C17_Converges"],
+                [XFER_Q1, XFER_Q2], [XFER_T], ["G_XferCaughtUp", "G_XferBlocksEntries", "G_XferSuccessOnHigherTerm"], sim=("xfer",),
+                fuzz=("xfer", "xferconf"), runs=(48, 800)),
     # C17: (a) leader stickiness as an action property; (b) convergence under a fair, fault-free continuation of random fault histories
     "C17": plan(["C17_LeaderStickiness", "C17_Converges"], [ELECT_Q], [ELECT_T], ["FixD1", "G_LeaderKnown"], sim=("core",),
                 fuzz=("fair", "fairconf"), runs=(48, 800)),
